@@ -6,17 +6,30 @@ import (
 	"qrynverif/evid"
 )
 
-func TestProp(t *testing.T) {
-	r := evid.New(t, "C08", evid.Config{
+var cfg = evid.Config{
 		Level: "exploration",
 		Rule:  "generated LogQL metric queries x small databases x window/step shapes; non-trivial: >= 2 output series or >= 2 range buckets in the reference, and at least one entry of the widened window excluded by selector or pipeline",
 		Assumptions: []string{
 			"chsim models the ClickHouse subset the planners emit (harness/chsim/README.md, Model assumptions)",
 			"refeval.EvalMetricSQL: tumbling epoch-aligned range buckets, qryn's step handling (StepFix / ZeroEater / FixPeriod) modelled as specified in refeval/sqlconv_eval.go",
-			"range durations divide 24h (others: finding C09-range-grid-year-one); windows are whole seconds; step > 0",
+			"range durations are one integer and one unit (ns us ms s m h), as qryn's grammar takes them; windows are whole seconds; step > 0",
 		},
-	})
+}
+
+func TestProp(t *testing.T) {
+	r := evid.New(t, "C08", cfg)
 	addMetric(r)
 	addMeta(r)
+	addBatch(r, 150, 500)
+	r.Main()
+}
+
+// TestRace runs multi-batch cases under the race detector (the driver builds this binary
+// with -race): one sub-test per case, so a race report is attributed to the case that ran.
+func TestRace(t *testing.T) {
+	raceT = t
+	defer func() { raceT = nil }()
+	r := evid.New(t, "C08", cfg)
+	addBatch(r, 40, 100)
 	r.Main()
 }
